@@ -83,7 +83,7 @@ func init() {
 				cse.TimeoutMS = 60000
 				cs = append(cs, cse)
 			}
-			for i, s := range []string{"blocked-stop", "parked-dispatch", "cancel-blocked-stop", "restart-rearm", "restart-from-last", "stop-at-once", "double-stop", "long-blocked-stop", "zero-delay-middle", "equal-frequency-neighbours", "unsorted-delays"} {
+			for i, s := range []string{"blocked-stop", "parked-dispatch", "cancel-blocked-stop", "restart-rearm", "restart-from-last", "stop-at-once", "double-stop", "long-blocked-stop", "zero-delay-middle", "equal-frequency-neighbours", "unsorted-delays", "restarts-during-report", "restart-at-start"} {
 				reps := 2
 				if tier == "thorough" {
 					reps = 8
@@ -103,6 +103,9 @@ func init() {
 					if s == "unsorted-delays" {
 						// start delays are relative to the previous schedule, in list order, whatever their sizes
 						p.Scheds = []c18Sched{{0, 10}, {600, 7}, {100, 3}}
+					}
+					if s == "restart-at-start" {
+						p.Scheds = []c18Sched{{0, 5}}
 					}
 					if s == "long-blocked-stop" && rep > 0 {
 						continue // 6.5 s each: one per tier run
@@ -539,6 +542,72 @@ func c18Script(c *core.Case, o *core.Outcome) {
 		case <-time.After(10 * time.Second):
 			o.Violate(key+"-hang", "Stop did not return within 10 s after the function finished")
 			return
+		}
+	case "restarts-during-report":
+		// three Restart calls while the function is busy with a slow report, then Stop: whatever became of the
+		// requests, nothing of the runner is left afterwards (8 rounds)
+		for round := 0; round < 8; round++ {
+			rc := &c18Rec{l: l, gate: make(chan struct{}), entered: make(chan struct{})}
+			runner, _ := raterun.New(rc.c18fn, c18Schedules(&p))
+			runner.Start(ctx)
+			select {
+			case <-rc.entered:
+			case <-time.After(10 * time.Second):
+				o.Inconc("function never invoked")
+				cancel()
+				return
+			}
+			restarted := make(chan struct{})
+			go func() {
+				defer close(restarted)
+				for i := 0; i < 3; i++ {
+					runner.Restart()
+				}
+			}()
+			time.Sleep(20 * time.Millisecond)
+			close(rc.gate)
+			select {
+			case <-restarted:
+			case <-time.After(10 * time.Second):
+				o.Violate(key, "three Restart calls made while the function was executing had not all returned 10 s after it finished")
+				return
+			}
+			done, _ := stopInGoroutine(runner, rc)
+			select {
+			case <-done:
+			case <-time.After(10 * time.Second):
+				o.Violate(key+"-hang", "Stop did not return within 10 s")
+				return
+			}
+			time.Sleep(20 * time.Millisecond)
+			if !c18Leak(o, opt, p.Desc+" (after Restart x3 during a slow report, then Stop)") {
+				return
+			}
+		}
+	case "restart-at-start":
+		// a single schedule; Restart right after Start, when the first start delay is expiring: the runner goes (back) to
+		// that schedule and keeps ticking (20 rounds, bounded progress: 5 ms ticks, one invocation within 2 s)
+		for round := 0; round < 20; round++ {
+			rc := &c18Rec{l: l}
+			runner, _ := raterun.New(rc.c18fn, c18Schedules(&p))
+			runner.Start(ctx)
+			if round%2 == 1 {
+				time.Sleep(time.Duration(round) * 50 * time.Microsecond)
+			}
+			runner.Restart()
+			n0 := func() int { rc.mu.Lock(); defer rc.mu.Unlock(); return len(rc.invs) }()
+			ok := waitUntil(2*time.Second, func() bool { rc.mu.Lock(); defer rc.mu.Unlock(); return len(rc.invs) > n0 })
+			done, _ := stopInGoroutine(runner, rc)
+			select {
+			case <-done:
+			case <-time.After(10 * time.Second):
+				o.Violate(key+"-hang", "Stop did not return within 10 s")
+				return
+			}
+			if !ok {
+				o.Violate(key, "one schedule (5 ms ticks), Restart right after Start (round %d): the function was not invoked once in the 2 s that followed - the runner is running and has stopped ticking", round)
+				return
+			}
 		}
 	case "double-stop":
 		// several Stop calls overlapping while the function is executing: none of them may return before it has
